@@ -215,6 +215,26 @@ class Sched:
             def cpu_count():
                 return 64
 
+            @staticmethod
+            def active_children():
+                # every live child of the calling process: the workers of the running group AND a child that has nothing to
+                # do with realign (the caller's own pool, a manager ...), which is what an embedding application looks like
+                class _Bystander:
+                    name, pid, daemon, exitcode = "Bystander-1", 39999, True, None
+
+                    @staticmethod
+                    def is_alive():
+                        return True
+
+                return [p for p in fake.procs if fake.alive(p)] + [_Bystander()]
+
+            @staticmethod
+            def current_process():
+                class _Main:
+                    name, pid, daemon = "MainProcess", 39000, False
+
+                return _Main()
+
         self.saved_mp = RL.mp
         self.saved_stdout = sys.stdout
         RL.mp = FakeMP
